@@ -26,7 +26,13 @@ def run_check(pid, tier):
     ctx.rule = getattr(mod, "RULE", "")
     for a in getattr(mod, "ASSUMPTIONS", []):
         ctx.assume(a)
-    mod.run(ctx)
+    try:
+        mod.run(ctx)
+    except Exception as e:
+        if not core.raised_in_repo(e) or isinstance(e, RuntimeError) and "worker failed" in str(e):
+            raise
+        ctx.violation("unexpected_exception", {"exception": type(e).__name__}, {"kind": "__task__", "task": "main"},
+                      f"hdc-algo raised {type(e).__name__}: {e} during the exploration\n" + core.short_tb(e))
     findings = core.load_findings()
     dump = os.environ.get("VERIF_DUMP_VIOLATIONS")
     if dump:
@@ -93,6 +99,12 @@ def run_replay(pid, path):
     mod = _load(pid)
     outs = []
     for _ in range(2):
+        if doc["case"].get("kind") == "__task__":
+            # no single-case replay for an unexpected exception: re-run the exploration it came from
+            p = core.Ctx(pid, doc.get("tier", "quick"), int(doc.get("seed", 0)))
+            mod.run(p)
+            outs.append(sorted({(v["sub"], v["msg"].split("\n")[0]) for v in p.violations if v["sub"] == "unexpected_exception"}))
+            continue
         p = core.Partial()
         mod.replay(doc["sub"], doc["case"], p)
         outs.append([(v["sub"], v["msg"]) for v in p.violations])
